@@ -3141,6 +3141,11 @@ func (t *Topic) replyDelMsg(sess *Session, asUid types.Uid, asChan bool, msg *Cl
 		// User has just the R permission, cannot hard-delete messages, silently
 		// switching to soft-deleting
 		del.Hard = false
+	} else if !del.Hard && !(pud.modeGiven & pud.modeWant).IsReader() {
+		// Same rule for those who may hard-delete: a soft deletion hides messages from the user's
+		// own view, it requires the R permission.
+		sess.queueOut(ErrPermissionDeniedReply(msg, now))
+		return errors.New("del.msg: permission denied")
 	}
 
 	var err error
